@@ -218,7 +218,10 @@ class Machine(RuleBasedStateMachine):
     @rule(op=ops())
     def request(self, op):
         try:
-            self.sim.step(op)
+            try:
+                self.sim.step(op)
+            except sut.Runaway as runaway:
+                self.sim.fail("the call never returned: %s" % runaway)
         except PropertyFailure as exc:
             self.ctx.note_failure(exc)
             raise
